@@ -1,11 +1,13 @@
 SPECIFICATION MCSpec
 CONSTANTS
   PermuteModules = FALSE
-  N = 3
-  Kinds = {"val", "ptr", "base", "vptr"}
+  N = 4
+  Kinds = {"val", "ptr", "vptr"}
   VftTypes = {1, 2}
   FnKinds = {}
+  FnOwners = {}
   TwoModules = FALSE
   Ptrs = {8}
 INVARIANTS Inv_Passes Replay
 CHECK_DEADLOCK FALSE
+VIEW View
